@@ -155,7 +155,7 @@ func runC17(c *engine.Ctx, tier string) {
 	}
 	// what is readable afterwards is what was set only if the store rewrites an entry whenever a later
 	// transaction touched it: sign, width and element lengths live in TypeOpts, not in the value bytes
-	persistTable(c, "C17.7", pkgStoreCfgV2)
+	persistTableSync(c, "C17.7", pkgStoreCfgV2)
 	// one attribute for a whole leaf-list must not be the last element's
 	lwPkgs := []string{pkgValuesV2, pkgValuesV3}
 	if os.Getenv("OCC_LASTWINS_ALL") != "" { // survey mode: every package of the module
